@@ -167,6 +167,15 @@ class Message:
         return m
 
     def acknowledge(self, multiple=True, threadsafe=False):
+        # AMQP basic.ack: with multiple=True every outstanding delivery of the channel up to and
+        # including this tag is acknowledged
+        if multiple:
+            b = self._broker
+            mine = b.unacked.get(self._tag)
+            conn = mine[2].conn if mine else None
+            for t in [t for t, v in list(b.unacked.items()) if t < self._tag and (conn is None or v[2].conn is conn)]:
+                b.oplog.append(("multi-ack", b.unacked[t][0], b.unacked[t][1].message_id))
+                del b.unacked[t]
         self._broker.ack(self._tag)
 
     def __repr__(self):
